@@ -350,7 +350,8 @@ def verify_group(ctx, g: Group):
                         % (g.name, npost, g.min_post))
     if g.loops and not any('loop_invariant_step' in o['name'] for o in obl):
         raise Undecided('loop contract of %s was dropped (no loop_invariant_step obligation)' % g.name)
-    if g.kind == 'bounded' and any('unwind' in o['name'] and o['status'] == 'FAILURE' for o in obl):
+    if g.kind == 'bounded' and any('unwind' in o['name'] and o['status'] == 'FAILURE' for o in obl) and \
+            not any(o['status'] == 'FAILURE' and o['class'] == 'primary' for o in obl):
         raise Undecided('unwinding assertion failed in bounded group %s: bound too small' % g.name)
     failed = [o for o in obl if o['status'] == 'FAILURE']
     g.result['failed'] = failed
@@ -438,6 +439,20 @@ def trace_inputs(results, prop):
             if not (base.startswith('in_') or base.startswith('g_')):
                 continue
             v = st.get('value', {})
+            mo = re.fullmatch(r'(\w+)\[(\d+)l?\]', base)
+            if mo:
+                # element assignment of a ghost/input array: merge into the array value
+                arr = vals.get(mo.group(1))
+                if not isinstance(arr, list):
+                    arr = []
+                k = int(mo.group(2))
+                while len(arr) <= k:
+                    arr.append({'data': '0', 'bin': '0'})
+                arr[k] = _val(v)
+                vals[mo.group(1)] = arr
+                continue
+            if '[' in base or '.' in base:
+                continue
             vals[base] = _val(v)
     return vals
 
